@@ -101,6 +101,9 @@ def _regen(scratch, log):
             rc, out = _run(["bison", "-d", "-Wno-yacc", "-o", g + ".c", g + ".y"], cwd=ly)
         else:
             rc, out = _run(["flex", "-o", g + ".c", g + ".l"], cwd=ly)
+            # the lexers say %option outfile="lex.yy.c", which overrides -o: do what automake's ylwrap does
+            if rc == 0 and os.path.exists(os.path.join(ly, "lex.yy.c")):
+                os.replace(os.path.join(ly, "lex.yy.c"), os.path.join(ly, g + ".c"))
         log.append("regen %s rc=%d %s" % (g, rc, out[-400:]))
         if rc != 0:
             raise BuildError("cannot regenerate %s: %s" % (g, out))
